@@ -149,6 +149,9 @@ class Walker:
         if h == "un" and t[1] == "Not":
             r = self.truth(t[2], val, killed, depth + 1)
             return None if r is None else (not r)
+        if h == "call" and t[1] == "anyhow::__private::not" and len(t[2]) == 1:
+            r = self.truth(t[2][0], val, killed, depth + 1)
+            return None if r is None else (not r)
         at = self.atom_of(t, ("bool",))
         if at is not None and at.name not in killed:
             return val[at.name]
